@@ -36,6 +36,8 @@ func (r *elementByFoodReporter) Process(ln *shared.LogNode) error {
 					r.acc.Add(node.Header, repl.Value*e.Value)
 				}
 			}
+		} else if e.Name == singleElement {
+			r.acc.Add(e.Name, e.Value)
 		}
 	}
 	return nil
